@@ -425,7 +425,7 @@ fn explore_all(thorough: bool) -> i32 {
     let progs = programs();
     let k: u32 = if thorough { 3 } else { 1 };
     let bound = 1usize;
-    let stall_ms = 400u64;
+    let stall_ms = 1000u64;
     let ncpu = std::thread::available_parallelism().map(|n| n.get()).unwrap_or(4);
     // shards per program: proportional to its number of threads/operations
     let mut jobs: Vec<(usize, usize, usize)> = vec![];
@@ -480,6 +480,9 @@ fn explore_all(thorough: bool) -> i32 {
         }
         for m in r["machinery"].as_array().into_iter().flatten() {
             machinery.push(m.as_str().unwrap_or("").to_string());
+        }
+        if r["released_executions"].as_u64().unwrap_or(0) > 0 {
+            cuts.push(format!("{}: {} execution(s) were released after a stall (not expanded)", r["program"].as_str().unwrap_or(""), r["released_executions"]));
         }
         if let Some(c) = r["cut"].as_str() {
             cuts.push(format!("{}: {}", r["program"].as_str().unwrap_or(""), c));
